@@ -45,3 +45,13 @@ package dns
 //@   requires rr != nil
 //@   exit whole: callres("fromBase64", 1) != nil ==> ret0 == nil
 //@ func StringToTime [C07 C05]
+
+// the identity "hash" of Ed25519 (RFC 8080: the message itself is signed) keeps every octet written to it
+//@ func (identityHash).Write [C10 C18]
+//@   callsite "Write" whole: ref(arg1) == ref(b) && sliceoff(arg1) == sliceoff(b) && len(arg1) == len(b)
+
+// RFC 6605 / BIND private-key format: the ECDSA private scalar is exported with the full width of its curve (32 or 48
+// octets, leading zeros kept), which is what readers of the format expect
+//@ func (*DNSKEY).PrivateKeyString [C17]
+//@   opt no-safety
+//@   assert at "private := toBase64(intToBytes(p.D, intlen))" width: (r.Algorithm == 13 ==> intlen == 32) && (r.Algorithm == 14 ==> intlen == 48)
